@@ -105,11 +105,11 @@ RULES = {
 }
 
 EXPLANATION = {
-    "C11": "Decides the property completely for the nine functions that see an integer only through its size field and lowest limb: "
+    "C11": "Decides the property completely for the seventeen functions that see a number only through its size field, one limb and (floats) its exponent: the eight mpf_fits_*_p predicates, "
            "_mpz_cmp_ui, _mpz_cmp_si (behind mpz_cmp_ui / mpz_cmp_si), mpz_cmpabs_ui and the six mpz_fits_*_p predicates.  The input space is "
            "cut into the finitely many cells on which the exact answer is constant (size class x sign of the scalar x order of the limb "
            "against |scalar|, or against the limits of the C type); each function's CFG is executed abstractly on every cell (intervals + "
-           "'is l / is v / is -v' symbols, path-sensitive, loop-free) and every reachable return must have the exact sign / answer: 97 cells, "
+           "'is l / is v / is -v' symbols, path-sensitive, loop-free) and every reachable return must have the exact sign / answer: 173 cells, "
            "all proved.  mpz_cmp, mpz_cmpabs, the _d forms, mpq_cmp*, mpf_cmp*, and every conversion (get_d, set_d, get_si ...) are value "
            "computations over limb vectors or doubles and are not decided.",
     "C07": "Decides one clause of the statement: the results the manual documents as non-negative are non-negative - g of mpz_gcd and "
